@@ -149,6 +149,19 @@ def gen_c04(rng, tier):
     ports = range(0, 65536) if tier == 'thorough' else list(range(21400, 21600)) + [rng.below(65536) for _ in range(300)]
     frames = [w.udp_frame(True, sp, 3478, st) for sp in ports]
     cases.append(case(w, frames, ['udp6-checksum-sweep']))
+    # ones-complement carry patterns, deterministically: echo bodies whose words sum past one and two carries,
+    # odd lengths, all-ones runs; STUN transaction ids and DNS ids of all-ones (echoed into the reply)
+    frames = []
+    for body in [b'\xff\xff\xff\xff\x00\x01', b'\xff\xff\xff\xff\x00\x02', b'\xff\xff\xff\xff\x01', b'\xff\xff\xff\xff\xff\xfe',
+                 b'\xff\xff\xff\xff', b'\xff' * 7, b'\xff' * 8, b'\xff' * 64, b'\xff' * 65, b'\xff' * 1472, (b'\xff\xfe' * 300)[:599],
+                 b'\x00\x00\x00\x00', b'\xf7\xff\x00\x00', b'\xf7\xfe\x00\x01\xff\xff']:
+        frames.append(w.f4(1, icmp(8, 0, body)))
+        frames.append(w.f6(58, icmp6(128, 0, body[:1452], *w.addrs(True))))
+    for tid in (b'\xff' * 16, b'\xff\xff\xff\xff' + bytes(12), b'\x00' * 16):
+        for v6 in (False, True):
+            frames.append(w.udp_frame(v6, 0xffff, 3478, b'\x00\x01\x00\x00' + tid))
+            frames.append(w.udp_frame(v6, 0xffff, 53, b'\xff\xff\x01\x00\x00\x01\x00\x00\x00\x00\x00\x00' + b'\x3f' + b'\xff' * 63 + b'\x00\x00\x01\x00\x01'))
+    cases.append(case(w, frames, ['carry-patterns']))
     if tier == 'thorough':
         frames = [w.udp_frame(False, sp, 3478, st) for sp in range(0, 65536, 3)]
         frames += [w.fip(v6, 58 if v6 else 1, (icmp6(128, 0, struct.pack('>HH', i, 0xffff) + b'\x00\x01', *w.addrs(True)) if v6 else icmp(8, 0, struct.pack('>HH', i, 0xffff) + b'\x00\x01')))
@@ -243,7 +256,16 @@ def gen_c06(rng, tier):
                     frames.append(w.tcp_frame(v6, sport, dport, seq, ack, flags, pl))
             # history: some valid data first so that the table is not empty
             pre = [w.data_frame(v6, 1000 + k, 80, 5, b'GET / HTTP/1.1\r\n\r\n') for k in range(3)]
-            cases.append(case(w, pre + frames, ['syn-grid', 'v6' if v6 else 'v4']))
+            # SYNs on the very tuples that now have a table entry (all SYN-bearing flag words the Linux rule
+            # accepts or rejects, with and without payload, any acknowledgement number)
+            s_, d_ = w.addrs(v6)
+            est = []
+            for k in range(3):
+                for flags in (0x02, 0x42, 0x82, 0xc2, 0x0a, 0x22, 0x12, 0x06, 0x03, 0x102):
+                    for pl in (b'', b'x'):
+                        ack = rng.choice([0, (w.cookie(s_, d_, 1000 + k, 80) + 1) & 0xffffffff, rng.u32()])
+                        est.append(w.tcp_frame(v6, 1000 + k, 80, rng.u32(), ack, flags, pl))
+            cases.append(case(w, pre + est + frames, ['syn-grid', 'syn-on-established', 'v6' if v6 else 'v4']))
         # retransmission determinism and one-input-changed cookies
         frames = []
         for _ in range(60 if tier == 'quick' else 600):
@@ -417,6 +439,28 @@ def hostile_frames(rng, w, n):
     return frames
 
 
+def probe_frames(w):
+    """a small deterministic set of requests whose fields feed log arguments and parsers at every configuration:
+    DNS names with every label length off by -2..+3, HTTP targets with non-UTF-8 / control bytes, SSH banners with
+    odd line ends, STUN attributes with lying lengths — over UDP/IPv4 and as a first TCP segment"""
+    out = []
+    base = [b'www', b'example', b'com']
+    for i in range(len(base)):
+        for delta in (-2, -1, 1, 2, 3, 60):
+            nm = b''.join(bytes([max(0, min(63, len(l) + (delta if j == i else 0)))]) + l for j, l in enumerate(base)) + b'\x00'
+            q = struct.pack('>HHHHHH', 0x1234, 0x0100, 1, 0, 0, 0) + nm + struct.pack('>HH', 1, 1)
+            out.append(w.udp_frame(False, 40000, 53, q))
+    for nm in (b'\x02\x00', b'\x01\x00', b'\x3f' + b'a' * 10 + b'\x00', b'\xc0\x0c', b'\x00'):
+        out.append(w.udp_frame(False, 40000, 53, struct.pack('>HHHHHH', 1, 0x0100, 1, 0, 0, 0) + nm + struct.pack('>HH', 1, 1)))
+    for tgt in (b'/\xff\xfe', b'/\x00', b'/%00', b'/' + b'\xc3', b'/a b', b'/\r'):
+        out.append(w.data_frame(False, 40001 + len(out), 80, 7, b'GET ' + tgt + b' HTTP/1.1\r\nHost: \xff\r\n\r\n'))
+    for b in (b'SSH-2.0-\xff\r\n', b'SSH-2.0-x\r\r\n', b'SSH-2.0-x\n', b'SSH-1.99-\x00\r\n'):
+        out.append(w.data_frame(False, 41001 + len(out), 22, 7, b))
+    for a in (b'\x00\x03\xff\xff', b'\x00\x01\x00\x08\x00\x03', b'\x80\x22\x00\x05abc'):
+        out.append(w.udp_frame(False, 40000, 3478, b'\x00\x01' + struct.pack('>H', len(a)) + b'\x21\x12\xa4\x42' + bytes(12) + a))
+    return out
+
+
 def gen_c01(rng, tier):
     cases = []
     per = 120 if tier == 'quick' else 1500
@@ -425,7 +469,7 @@ def gen_c01(rng, tier):
             for lg in LOGGERS:
                 for lv in LEVELS:
                     w = World(rng, selfmode=bool(si), denymode=bool(di), logger=lg, level=lv)
-                    cases.append(case(w, hostile_frames(rng, w, per), ['hostile', 'logger:' + lg, 'level:' + lv]))
+                    cases.append(case(w, hostile_frames(rng, w, per) + probe_frames(w), ['hostile', 'logger:' + lg, 'level:' + lv]))
     # flow-reuse histories: a few 4-tuples that see SYN / data of different protocols / FIN / RST in sequence
     # (stale per-flow parser state, poisoned-mutex cascades)
     for fc in gen_flows(rng, tier, nflows=3, steps=80)[: (40 if tier == 'quick' else 1000)] + gen_reuse(rng, tier):
@@ -549,11 +593,11 @@ def gen_appcases(kinds, tcp=None, v6=None, per=400, mutate_ratio=6):
                     fault = 'mutated'
                 tags['%s:%s' % (kind, fault)] = tags.get('%s:%s' % (kind, fault), 0) + 1
                 shape = rng.below(10)
-                if shape == 0 and kind in ('stun', 'ssh', 'smb1', 'smb2', 'ghost') and tcp is not False:
+                if shape == 0 and kind in ('stun', 'ssh', 'smb1', 'smb2', 'ghost', 'http') and tcp is not False:
                     # sticky flow: a valid first request identifies the flow, later segments go straight to that responder
                     first = {'stun': lambda: gen.gen_stun(rng, None, magic=True) if False else gen.gen_stun_long(rng),
                              'ssh': lambda: gen.gen_ssh(rng), 'smb1': lambda: gen.gen_smb1(rng), 'smb2': lambda: gen.gen_smb2(rng),
-                             'ghost': lambda: gen.gen_ghost(rng)}[kind]()
+                             'ghost': lambda: gen.gen_ghost(rng), 'http': lambda: gen.gen_http(rng)}[kind]()
                     _ck[0] += 1
                     ck = _ck[0]
                     v = rng.chance(1, 2)
